@@ -164,7 +164,9 @@ func Generate(r *rng.R, cfg Config) *Program {
 		}
 		f := &File{Path: dir + base + ".thrift"}
 		// includes: the last file includes (transitively) every other file
-		for j, prev := range g.p.Files {
+		// (later files first: an earlier file is then often reached only through another include)
+		for j := len(g.p.Files) - 1; j >= 0; j-- {
+			prev := g.p.Files[j]
 			if r.Chance(1, 2) || (i == cfg.Files-1 && !g.reached(f, prev)) || (i < cfg.Files-1 && j == i-1 && r.Chance(1, 2)) {
 				if !contains(f.Includes, prev) {
 					f.Includes = append(f.Includes, prev)
@@ -605,10 +607,12 @@ func (g *generator) genLit(f *File, t *Type, depth, cd int) *Lit {
 	r := g.r
 	root := t.Root()
 	// reference to an earlier constant of exactly this (primitive) type
-	if t.K != Named && t.IsPrim() && r.Chance(1, 10) {
+	if t.IsPrim() && r.Chance(1, 8) {
 		var cands []*Constant
 		for _, c := range g.visibleConsts(f) {
-			if c.Type.K == t.K && c.Type.K != Named {
+			// a constant of exactly this type: the same base type, or the same enum / typedef
+			// (for a named type the generator emits a reference by name instead of the value)
+			if c.Type.K == t.K && (t.K != Named || c.Type.Ref == t.Ref) {
 				cands = append(cands, c)
 			}
 		}
@@ -719,6 +723,21 @@ func (g *generator) visibleConsts(f *File) []*Constant {
 }
 
 func (g *generator) genConst(f *File) {
+	// now and then a constant that is just another constant of an enum / typedef-of-primitive
+	// type (the generator then refers to that constant by its Go name)
+	if g.r.Chance(1, 4) {
+		var cands []*Constant
+		for _, c := range g.visibleConsts(f) {
+			if c.Type.K == Named && c.Type.IsPrim() {
+				cands = append(cands, c)
+			}
+		}
+		if len(cands) > 0 {
+			c0 := cands[g.r.Intn(len(cands))]
+			f.Consts = append(f.Consts, &Constant{File: f, Name: g.fresh(g.r.Pick(1, 2, 3, 3, 5, 0)), Type: c0.Type, Value: &Lit{K: LConstRef, Const: c0}})
+			return
+		}
+	}
 	for try := 0; try < 20; try++ {
 		t := g.genType(f, g.cfg.Depth-1, nil)
 		if !constable(t, 3) {
@@ -742,6 +761,20 @@ func (g *generator) genService(f *File) {
 	parents = append(parents, f.Services...)
 	if len(parents) > 0 && r.Chance(2, 3) {
 		s.Parent = parents[r.Intn(len(parents))]
+		// prefer a parent whose own ancestors live in files this file does not include itself:
+		// inheritance then runs through modules that are reachable only transitively
+		var deep []*Service
+		for _, p := range parents {
+			for a := p.Parent; a != nil; a = a.Parent {
+				if a.File != f && !contains(f.Includes, a.File) {
+					deep = append(deep, p)
+					break
+				}
+			}
+		}
+		if len(deep) > 0 && r.Chance(2, 3) {
+			s.Parent = deep[r.Intn(len(deep))]
+		}
 		// a service named like the (included) service it extends
 		if p := s.Parent; p.File != f && r.Chance(1, 3) && !g.topIn[f][GoCase(p.Name)] {
 			delete(g.topIn[f], GoCase(s.Name))
